@@ -41,7 +41,7 @@ import asimap.trace
 from .client import Authenticated
 from .constants import MAX_INPUT_SIZE, SPECIAL_USE_ATTRS
 from .db import Database
-from .exceptions import MailboxInconsistency
+from .exceptions import MailboxInconsistency, response_text
 from .mbox import Mailbox, NoSuchMailbox
 from .mh import MH
 from .parse import BadCommand, IMAPClientCommand
@@ -299,9 +299,11 @@ class IMAPClientProxy:
                     #
                     logger.debug("*** Bad command! '%s'", imap_msg)
                     if imap_cmd.tag is not None:
-                        await self.push(f"{imap_cmd.tag} BAD {e}\r\n")
+                        await self.push(
+                            f"{imap_cmd.tag} BAD {response_text(e)}\r\n"
+                        )
                     else:
-                        await self.push(f"* BAD {e}\r\n")
+                        await self.push(f"* BAD {response_text(e)}\r\n")
                     # A command we could not parse is answered with BAD; it is
                     # not a reason to drop the connection.
                     #
